@@ -651,6 +651,10 @@ def explore(binary, prop, tier, seed, budget, workers, max_runs, scratch, spec, 
                     ok, s = True, dict(s1, found=match)
                 if not external:
                     break
+        if spec.get("must_reproduce") and hits < attempts:
+            # (every attempt must repeat it: in these phases a genuine deadlock is a function of the tape, while the rare
+            # spurious observation - seen about once in a few thousand runs, cause not found - would have to recur by chance)
+            ok = False
         if not ok and spec.get("must_reproduce"):
             # this engine's runs are exact functions of the tape: an observation that three fresh processes do not
             # repeat is not attributed to the code under test (it is kept in the evidence notes)
